@@ -40,28 +40,45 @@ Oracles (the documented contract, DESIGN.md section 6 C20):
   outer cancel  only the bound and liveness (every started thunk ends) -- the docstrings are silent.
   liveness      the call returns; after draining the loop no thunk is alive.
 
-Sensitivity (scratch copies of hail/python under /tmp, HAIL_REPO_ROOT; deleted afterwards).  The unchanged tree
-violates the property in several ways (see the signatures below), so mutants were applied to a *repaired* copy
-(WithoutSemaphore always re-acquires; cancel_on_error cancels every unfinished task and waits; _shutdown/__aexit__
-wait for the cancelled tasks; bounded_gather holds its own semaphore) on which this scenario is green with
-params {'allow_unheld': False}:
-  see MUTANTS at the end of this docstring (filled in from the actual runs).
-
-Signatures seen on the unchanged tree (genuine, reproduced outside the simulator as well):
+Signatures seen on the unchanged tree (genuine; each reproduced on a plain asyncio loop outside the simulator):
   C20/over_bound/caller_not_holding/<api>   WithoutSemaphore.__aenter__ releases a permit the caller never
         acquired: bounded_gather(parallelism=n) runs n+1 thunks at once; same for bounded_gather2 /
-        OnlineBoundedGather2 called on a fresh Semaphore(n).
+        OnlineBoundedGather2 called on a fresh Semaphore(n) by a caller that holds no permit.
   C20/over_bound/after_error   WithoutSemaphore.__aexit__ does not re-acquire when an exception (or a
-        cancellation) passes through, the enclosing `async with sema` releases again: every failed call inflates
-        the semaphore by one permit for whoever uses it next.
+        cancellation) passes through and the enclosing `async with sema` releases again: every failed call
+        inflates the semaphore by one permit for whoever uses it next (next call, nested use).
   C20/cancel_on_error/remaining_work_not_cancelled, C20/cancel_on_error/returned_before_cancelled_thunks_finished
         the clean-up loop of bounded_gather2_raise_exceptions re-raises at the first failed task it meets, so tasks
         submitted after it are never cancelled and nothing is awaited.
   C20/online/exit_with_running_thunk/failure_path   _shutdown sets the done event right after requesting the
-        cancellations, so __aexit__ returns while cancelled background tasks are still running.
+        cancellations, so __aexit__ returns while cancelled background tasks are still unwinding.
+  C20/online/exit_hangs/task_cancelled_before_it_ran   a pool task cancelled before its first step never runs
+        run_and_cleanup, stays in _pending, and __aexit__ waits forever.
 
-MUTANTS
-  (filled in below by hand after running them)
+Sensitivity.  Because the unchanged tree already fails, mutants were applied (HAIL_REPO_ROOT=/tmp/x, scratch copy,
+deleted afterwards) to a *repaired* copy (bounded_gather holds a permit of its own semaphore; WithoutSemaphore
+always re-acquires; cancel_on_error cancels every unfinished task and waits inside one WithoutSemaphore block;
+__aexit__ waits for the tasks _shutdown cancelled; _pending clean-up in a done callback).  The repaired copy is
+green on 45 000 seeds (quick and thorough bounds) with params {'allow_unheld': False}; each repair alone removes
+exactly its own signature(s).  6000 seeds per mutant, all caught:
+  M1  WithoutSemaphore releases twice                      C20/over_bound/plain
+  M2  WithoutSemaphore never re-acquires                   C20/over_bound/plain, after_error
+  M3  results in completion order                          C20/gather/result_not_in_submission_order
+  M4  cancel_on_error does not cancel                      C20/cancel_on_error/remaining_work_not_cancelled
+  M5  cancel_on_error cancels but does not wait            C20/cancel_on_error/returned_before_cancelled_thunks_finished
+  M6  pool exit does not wait on the normal path           C20/online/exit_with_running_thunk/normal_path
+  M7  background failure does not shut the pool down       C20/online/call_accepted_after_failure
+  M8  an individually cancelled task shuts the pool down   C20/online/call_raised_shutdown_without_failure, C20/spurious_cancel/online
+  M9  return_exceptions returns (None, None) for failures  C20/gather/return_exceptions_entry_wrong
+  M10 raise the last failure instead of the first          C20/gather/raised_not_first_failure
+  M11 pool exit raises the latest exception                C20/online/exit_exception_not_first
+  M12 first thunk bypasses the semaphore                   C20/over_bound/plain
+  M13 pool.call after shutdown silently accepted           C20/online/call_accepted_after_failure
+  M14 bounded_gather ignores `parallelism`                 C20/over_bound/plain
+M3, M6..M11, M13 were also applied to the unchanged tree and raise the same new signatures there.
+
+params: {'allow_unheld': False} restricts bounded_gather2 / OnlineBoundedGather2 to callers that hold a permit (use
+it once the helpers document that precondition); bounded_gather is always generated.
 """
 import asyncio
 
@@ -628,9 +645,7 @@ def run(ctx):
             w_raise = (0, 1, 3)[ps.weighted([2, 3, 2])]
             weights = [8, w_raise, 2 if fam != 'bg' else 0, 0]
             if not allow_unheld:
-                held = True
-                if fam == 'bg' and not ctx.params.get('bg_is_fixed', False):
-                    fam = 'bg2'
+                held = True  # bounded_gather2 / the pool are only called the way the repository's fs code does
             call = _Call(f'c{k}', fam, n, 0)
             call.coe = mode == 1
             call.re = mode == 2
